@@ -887,6 +887,32 @@ func r15waste(c *an.Ctx) {
 	// count is the very value given to the model
 	cnt := stripIntConv(call.Call.Args[2])
 	okTok := false
+	// a value inside a helper the handler calls once: its parameters are the handler's arguments
+	res := func(v ssa.Value) ssa.Value {
+		v = stripIntConv(v)
+		p, isP := v.(*ssa.Parameter)
+		if !isP || p.Parent() == h {
+			return v
+		}
+		g := p.Parent()
+		var site *ssa.Call
+		sites := 0
+		an.Instrs(h, func(in ssa.Instruction) {
+			if cl, ok := in.(*ssa.Call); ok && cl.Call.StaticCallee() == g {
+				site = cl
+				sites++
+			}
+		})
+		if sites != 1 {
+			return v
+		}
+		for i, gp := range g.Params {
+			if gp == p && i < len(site.Call.Args) {
+				return stripIntConv(site.Call.Args[i])
+			}
+		}
+		return v
+	}
 	an.Instrs(h, func(in ssa.Instruction) {
 		st, ok := in.(*ssa.Store)
 		if !ok {
@@ -908,7 +934,7 @@ func r15waste(c *an.Ctx) {
 				continue
 			}
 			sub, ok := stripIntConv(itoa.Call.Args[0]).(*ssa.BinOp)
-			if !ok || sub.Op != token.SUB || !(stripIntConv(sub.Y) == cnt || an.SameExpr(sub.Y, cnt)) || !(an.SameValue(stripIntConv(sub.X), stripIntConv(call.Call.Args[1])) || an.SameExpr(sub.X, call.Call.Args[1])) {
+			if !ok || sub.Op != token.SUB || !(stripIntConv(sub.Y) == cnt || an.SameExpr(sub.Y, cnt) || res(sub.Y) == cnt) || !(an.SameValue(stripIntConv(sub.X), stripIntConv(call.Call.Args[1])) || an.SameExpr(sub.X, call.Call.Args[1]) || an.SameValue(res(sub.X), stripIntConv(call.Call.Args[1]))) {
 				all = false
 				continue
 			}
@@ -920,16 +946,19 @@ func r15waste(c *an.Ctx) {
 				}
 				if bo.Op == token.EQL && e.Branch {
 					for _, pair := range [][2]ssa.Value{{bo.X, bo.Y}, {bo.Y, bo.X}} {
-						if !(stripIntConv(pair[0]) == cnt || an.SameExpr(pair[0], cnt)) {
+						if !(stripIntConv(pair[0]) == cnt || an.SameExpr(pair[0], cnt) || res(pair[0]) == cnt) {
 							continue
 						}
 						if ln, ok := pair[1].(*ssa.Call); ok && an.CalleeName(ln) == "builtin len" {
 							full = true
 						}
+						if ln, ok := res(pair[1]).(*ssa.Call); ok && an.CalleeName(ln) == "builtin len" {
+							full = true
+						}
 					}
 				}
 				if k, isC := an.ConstInt(bo.Y); isC && k == 0 && bo.Op == token.GTR && e.Branch {
-					if s2, ok := stripIntConv(bo.X).(*ssa.BinOp); ok && s2.Op == token.SUB && (stripIntConv(s2.Y) == cnt || an.SameExpr(s2.Y, cnt)) {
+					if s2, ok := stripIntConv(bo.X).(*ssa.BinOp); ok && s2.Op == token.SUB && (stripIntConv(s2.Y) == cnt || an.SameExpr(s2.Y, cnt) || res(s2.Y) == cnt) {
 						remain = true
 					}
 				}
